@@ -32,7 +32,22 @@ impl Sub<Instant> for Instant {
 impl Add<Duration> for Instant {
     type Output = Instant;
     fn add(self, rhs: Duration) -> Instant {
-        Instant(self.0.saturating_add(rhs.as_nanos() as u64))
+        // std panics when the sum does not fit its representation (seconds in an i64)
+        if rhs.as_secs() > (i64::MAX as u64).saturating_sub(self.0 / 1_000_000_000) {
+            panic!("overflow when adding duration to instant");
+        }
+        Instant(self.0.saturating_add(ns_saturating(rhs)))
+    }
+}
+
+/// nanoseconds of `d`, `u64::MAX` when they do not fit (a wait that long never ends: the
+/// virtual clock saturates there as well)
+pub fn ns_saturating(d: Duration) -> u64 {
+    let n = d.as_nanos();
+    if n > u64::MAX as u128 {
+        u64::MAX
+    } else {
+        n as u64
     }
 }
 
